@@ -29,6 +29,9 @@ inductive Act
   | add (ev : Nat) (h : Handler)
   | remove (ev key : Nat)
   | clearPassed                                 -- (callback) clear the cell that came with the post
+  | replace (ev : Nat) (h : Handler)            -- replace_handler(ev, callback h.pid, h.prio): drop its entries, add
+  | removeFn (pid : Nat)                        -- remove_handler(method)
+  | removeEvFn (ev pid : Nat)                   -- remove_handler_by_event(ev, handler)
   deriving DecidableEq, Repr
 
 structure Prog where
@@ -123,6 +126,10 @@ def runAct (own passed : Option Nat) (st : St) : Act → St
               pending := st.pending ++ [⟨ev, cb, if pass then own else none, st.nextSn⟩] }
   | .add ev h => { st with reg := regSet st.reg ev (sortDesc (regGet st.reg ev ++ [h])) }
   | .remove ev key => { st with reg := regSet st.reg ev ((regGet st.reg ev).filter (fun h => h.key != key)) }
+  | .replace ev h =>
+    { st with reg := regSet st.reg ev (sortDesc ((regGet st.reg ev).filter (fun x => x.pid != h.pid) ++ [h])) }
+  | .removeFn pid => { st with reg := st.reg.map (fun p => (p.1, p.2.filter (fun x => x.pid != pid))) }
+  | .removeEvFn ev pid => { st with reg := regSet st.reg ev ((regGet st.reg ev).filter (fun x => x.pid != pid)) }
 
 def runActs (own passed : Option Nat) (st : St) : List Act → St
   | [] => st
@@ -206,6 +213,9 @@ def parseAct (toks : List String) : Option Act :=
   | ["Q", ev, cb, pass] => do pure (.postQueue (← ev.toNat?) (← cb.toNat?) (pass == "1"))
   | ["A", ev, key, prio, pid] => do pure (.add (← ev.toNat?) ⟨← key.toNat?, ← prio.toInt?, ← pid.toNat?⟩)
   | ["R", ev, key] => do pure (.remove (← ev.toNat?) (← key.toNat?))
+  | ["H", ev, key, prio, pid] => do pure (.replace (← ev.toNat?) ⟨← key.toNat?, ← prio.toInt?, ← pid.toNat?⟩)
+  | ["M", pid] => do pure (.removeFn (← pid.toNat?))
+  | ["E", ev, pid] => do pure (.removeEvFn (← ev.toNat?) (← pid.toNat?))
   | _ => none
 
 def splitBar : List String → List (List String)
